@@ -126,7 +126,7 @@ pub fn check_c05(ctx: &Ctx, known: &KnownFindings) -> Report {
         rep.direct(name, r, &ks);
     }
     let prop = (1500usize, c05_case);
-    let r = drive(&prop, ctx.cases(60_000, 1_500_000), ctx, 5, &ks);
+    let r = drive(&prop, ctx.cases(500_000, 6_000_000), ctx, 5, &ks);
     rep.absorb(r);
     rep.require(&["with-pointer", "pointer-free-input", "rdata:name1", "rdata:mx", "rdata:soa", "rdata:dname", "opt:First", "opt:Middle", "opt:Last", "opt:Only", "boundary-query"]);
     rep
@@ -400,7 +400,7 @@ pub fn check_c06(ctx: &Ctx, known: &KnownFindings) -> Report {
         rep.direct(name, r, &ks);
     }
     let prop = (2500usize, c06_case);
-    let r = drive(&prop, ctx.cases(50_000, 1_000_000), ctx, 6, &ks);
+    let r = drive(&prop, ctx.cases(300_000, 4_000_000), ctx, 6, &ks);
     rep.absorb(r);
     rep.require(&[
         "pointer-after-shortening",
@@ -727,7 +727,7 @@ pub fn check_c07(ctx: &Ctx, known: &KnownFindings) -> Report {
         rep.direct(name, r, &ks);
     }
     let prop = (1200usize, c07_case);
-    let r = drive(&prop, ctx.cases(60_000, 1_500_000), ctx, 7, &ks);
+    let r = drive(&prop, ctx.cases(600_000, 8_000_000), ctx, 7, &ks);
     rep.absorb(r);
     rep.require(&[
         "rewritten",
